@@ -314,6 +314,9 @@ func corpusScripts(c *Check, modules []string, everyDefault int) []string {
 		if mod == "MC_Scope" || mod == "MC_History" || mod == "MC_Alias" {
 			every = 1 // small corpora are always taken whole
 		}
+		if mod == "MC_Expr" {
+			every = 50 * everyDefault // millions of one-line scripts which differ in their operands only
+		}
 		n = 0
 		inv := "Export"
 		cfg := fmt.Sprintf("SPECIFICATION Spec\nCONSTANT Tier = \"%s\"\nINVARIANT %s\nCHECK_DEADLOCK FALSE\n", c.Tier, inv)
@@ -411,7 +414,7 @@ func sizeFamily(tier string) []string {
 }
 
 func checkC18(c *Check) {
-	c.rule = "every accepted script of the corpora MC_Flow, MC_Opt, MC_Scope, MC_History (quick: every 8th distinct script; thorough: all, plus MC_Alias, MC_Cont, MC_Truth, MC_Expr) and a size family (integer literals and constant pools around the 8/16-bit boundaries, calls/arrays/hashes/literals whose operand low byte takes the value of every opcode as the last instruction of a function, bodies of 65.5k bytes in front of forward and backward jumps) is prepared optimised and unoptimised; the programs as the VM will run them (verif accessors) are explored by TLC on ALL control-flow paths (MC_Verify); every report is re-established by an independent decoder/abstract interpreter in Go before it counts; non-trivial = a prepared program with at least one jump or call; distinct = distinct (script, mode)"
+	c.rule = "every accepted script of the corpora MC_Flow, MC_Opt, MC_Scope, MC_History (every 8th distinct script, the small corpora whole; thorough: of the thorough-tier corpora, plus MC_Alias, MC_Cont, MC_Truth and every 400th script of MC_Expr) and a size family (integer literals and constant pools around the 8/16-bit boundaries, calls/arrays/hashes/literals whose operand low byte takes the value of every opcode as the last instruction of a function, bodies of 65.5k bytes in front of forward and backward jumps) is prepared optimised and unoptimised; the programs as the VM will run them (verif accessors) are explored by TLC on ALL control-flow paths (MC_Verify); every report is re-established by an independent decoder/abstract interpreter in Go before it counts; non-trivial = a prepared program with at least one jump or call; distinct = distinct (script, mode)"
 	c.assumptions = []string{"calls are taken to push one value (the statement's proviso)", "abstract stack heights saturate at 12", "the verif accessors return the byte slices the VM executes"}
 	// the model compiler (EFCompiler): well-formed on every enumerated program (TLC), and byte-for-byte
 	// what the real compiler emits (drift is reported, it is not a verdict)
@@ -443,7 +446,8 @@ func checkC18(c *Check) {
 	every := 8
 	mods := []string{"MC_Flow", "MC_Opt", "MC_Scope", "MC_History"}
 	if c.Tier == "thorough" {
-		every = 1
+		// (fitted: the thorough corpora hold millions of scripts; about 50 000 programs are what MC_Verify explores in ten minutes)
+		every = 8
 		mods = append(mods, "MC_Alias", "MC_Cont", "MC_Truth", "MC_Expr")
 	}
 	if m := os.Getenv("VERIF_C18_MODULES"); m != "" { // debugging aid
